@@ -198,10 +198,6 @@ theorem set_mass2_spec (hs : LawfulSqrt sq) (p : MP2 K) (m : K) (hm : 0 ≤ m) (
       · rw [h0, inv_zero, sqrt_zero sq hs, mul_zero]
     simp only [MP2.setMass, inv_spec, fieldNum_sqrt, if_true, z, mul_zero]
 
-/-- non-vacuity / concrete instance of `set_mass2_spec` over `ℚ`-like data is immediate (`m = 2`, old mass `1/2`): the
-hypotheses are sign conditions only. -/
-example : (0 : ℚ) ≤ 2 ∧ (0 : ℚ) ≤ (2 : ℚ) := ⟨by norm_num, by norm_num⟩
-
 /-- **`reconstruct_inverse_inertia_matrix` is the inverse of `reconstruct_inertia_matrix`** (unit frame, all principal
 inertias finite and non-zero): both products are the identity. -/
 theorem reconstruct_inverse_spec (p : MP3 K) (hu : UnitQ p.frame) (hx : p.invI.x ≠ 0) (hy : p.invI.y ≠ 0) (hz : p.invI.z ≠ 0) :
@@ -467,5 +463,26 @@ theorem from_trimesh3_full (hs : LawfulSqrt sq) (eig : M3 K → V3 K × M3 K) (d
   intro c m I h hD e1 e2 e3
   obtain ⟨r1, r2, r3, r4, -⟩ := with_inertia_matrix_recompose sq hs c m I (eig I).1 (eig I).2 hD e1 e2 e3
   exact ⟨_, by simp only [fromTrimesh3Full, h, MP3.withInertiaMatrix], r1, r2, r3, r4⟩
+
+/-! ### non-vacuity of the hypotheses (concrete data over `ℚ`) -/
+
+/-- a unit frame with an oblique axis and finite non-zero principal inertias (`reconstruct_inverse_spec`,
+`world_inv_inertia_sqrt_spec`): frame `(3/5, 0, 4/5, 0)`, rotation `(1/2, 1/2, 1/2, 1/2)` -/
+example : UnitQ (⟨3 / 5, 0, 4 / 5, 0⟩ : Quat ℚ) ∧ UnitQ (⟨1 / 2, 1 / 2, 1 / 2, 1 / 2⟩ : Quat ℚ) ∧
+    (⟨1 / 2, 1, 3⟩ : V3 ℚ).x ≠ 0 ∧ ¬ ((⟨0, 1, 0⟩ : V3 ℚ).x = 0 ∧ (⟨0, 1, 0⟩ : V3 ℚ).y = 0 ∧ (⟨0, 1, 0⟩ : V3 ℚ).z = 0) := by
+  refine ⟨by norm_num [UnitQ], by norm_num [UnitQ], by norm_num, by norm_num⟩
+
+/-- the threshold hypothesis of `sub3_raw_moments` / `sub3_add_cancel` on concrete operands (masses `2` and `1`), neither
+of which is `zero()` -/
+example :
+    let a : MP3 ℚ := ⟨⟨1, 2, 3⟩, 1 / 2, ⟨1, 1 / 2, 1 / 3⟩, ⟨0, 0, 0, 1⟩⟩
+    let b : MP3 ℚ := ⟨⟨0, 1, 0⟩, 1, ⟨1, 1, 1⟩, ⟨3 / 5, 0, 4 / 5, 0⟩⟩
+    (1 / 8388608 : ℚ) ≤ massOf3 a - massOf3 b ∧ 0 ≤ a.invMass ∧ 0 ≤ b.invMass ∧
+    (@MP3.subRaw ℚ (fieldNum ℚ fun x => x) a b).isSome = true := by
+  refine ⟨by norm_num [massOf3], by norm_num, by norm_num, ?_⟩
+  simp [MP3.subRaw, MP3.isZero, fieldNum_neq']
+
+/-- `set_mass_spec`: sign hypotheses only (`new_mass = 3`, old inverse mass `1/2`) -/
+example : (0 : ℚ) ≤ 3 ∧ (0 : ℚ) ≤ 1 / 2 := by norm_num
 
 end C13
